@@ -315,9 +315,13 @@ def _tricky(tier):
                    ).map(lambda spec: {'k': 'spec', 'spec': spec, 'path': 'file'})
 
 
+# file names that start with a digit are file names, not numbered external links ([1]Sheet)
+BOOK_NAMES = ['b%d.xlsx', 'b%d.xlsx', '2024_%d.xlsx', '%dq.xlsx', 'Book %d.xlsx']
+
+
 def _plain(tier):
     return st.builds(lambda spec, path: {'k': 'spec', 'spec': spec, 'path': path},
-                     G.specs(tier, max_books=2, wholecols=False), st.sampled_from(['file', 'dict']))
+                     G.specs(tier, max_books=2, wholecols=False, book_names=BOOK_NAMES), st.sampled_from(['file', 'dict']))
 
 
 # floats that never passed through the xlsx reader (which keeps 15 decimals): the dictionary path must keep every bit
